@@ -35,7 +35,7 @@ def case(draw):
     mode = draw(st.sampled_from(MODES))
     hyd = "all" if mode == ["--assign-only"] else None
     desc = draw(e2e.structure(missing=(mode not in (["--assign-only"], ["--clean"])), hyd=hyd,
-                              wild=draw(st.booleans())))  # fmt: skip
+                              wild=draw(st.booleans()), icodes=True))  # fmt: skip
     opts = list(mode)
     for o in ("--keep-chain", "--whitespace", "--drop-water"):
         if draw(st.integers(0, 3)) == 0:
@@ -138,8 +138,27 @@ def window_case(draw):
     return dict(part="windows", desc=draw(e2e.window_structure()), ff=draw(st.sampled_from(strat.FFS)), opts=opts)
 
 
+def check_ligand(case):
+    """Complexes with a MOL2 ligand, waters and a second hetero group: model atoms == written lines +
+    reported unassigned atoms, every written atom exactly once."""
+    from . import c16
+    from .. import colfmt
+
+    res = Result()
+    inner = c16.check_complex(dict(case, part="complex"))
+    for sig, msg in inner.violations:
+        if "partition" in sig or "count" in sig or "duplicates" in sig or "water-lines" in sig:
+            res.bad(sig.replace("C16:complex", "C03:ligand"), msg)
+    res.nontrivial = inner.nontrivial
+    res.labels = list(inner.labels)
+    return res
+
+
 def parts(tier):
+    from . import c16
+
     return [
+        Part("ligand", check_ligand, strategy=c16.complex_case(), budget=dict(quick=160, thorough=3000)),
         Part("e2e", check, strategy=case(), budget=dict(quick=640, thorough=12000)),
         Part("windows", check, strategy=window_case(), budget=dict(quick=240, thorough=5000)),
     ]
